@@ -144,3 +144,21 @@ Proof.
   apply (doc_ok_mono S D E fuel (Datatypes.S n) (default_fuel D) Hb).
   exact (doc_ok_intro S D E fuel Q rt _ n Hc Hrt Hstep HQ Hn).
 Qed.
+
+(** the same for [doc_ok_nodirs] (the type conditions only: [conds_gen false]) *)
+Theorem doc_ok_nodirs_acyclic S D E fuel (Q : name -> list selection -> Prop) rt :
+  acyclic_frags D ->
+  conds_gen S D E false = true ->
+  s_root_type S (op_kind D) = Some rt ->
+  (forall ot sels, Q ot sels ->
+     exists groups, s_collect S D E fuel ot sels = Some groups /\ Forall (group_local S D Q ot) groups) ->
+  Q rt (op_sels D) ->
+  doc_ok_nodirs S D E fuel (default_fuel D) = true.
+Proof.
+  intros Hac Hc Hrt Hstep HQ.
+  assert (Hd : (sels_depth (op_sels D) <= doc_depth D)%nat) by (unfold doc_depth; lia).
+  destruct (acyclic_levels D (op_sels D) Hac Hd) as [n [Hn Hb]].
+  unfold doc_ok_nodirs. rewrite Hc, Hrt. cbn [andb].
+  apply (sels_ok_mono S D E fuel (Datatypes.S n) (default_fuel D) rt (op_sels D) Hb).
+  apply (sels_ok_intro S D E fuel Q Hstep); [exact (levels_sound D _ _ _ Hn)|exact HQ].
+Qed.
